@@ -174,6 +174,71 @@ enum Chunk {
     Corpus(usize, usize, usize),
     /// every single-byte substitution (12 replacement bytes) at offsets from..to of a shipped contract
     CorpusMutations(usize, usize, usize),
+    /// one loop-free program under every vector of configuration values
+    ConfigGrid(usize),
+}
+
+/// Loop-free programs that use every configurable mechanism (copies, hashing, memory, forks, storage idioms).
+fn grid_programs() -> &'static Vec<Vec<u8>> {
+    static C: OnceLock<Vec<Vec<u8>>> = OnceLock::new();
+    C.get_or_init(|| {
+        let mut v: Vec<Vec<u8>> = Vec::new();
+        for t in 0..TEMPLATES {
+            v.push(template(t, U::from_u64(0x20), U::from_u64(0x40)));
+        }
+        // three conditional jumps to one target, a two-variable idiom program, a copy followed by a load and a store
+        v.push(crate::util::unhex("34600d5734600d5734600d57005b00"));
+        v.push(crate::c04::build(&crate::c04::Case {
+            vars: vec![
+                (crate::idioms::Var { slot: U::from_u64(5), kind: crate::idioms::Kind::Mapping(vec![crate::idioms::KeyKind::Address], true) }, crate::idioms::Mode::Both),
+                (crate::idioms::Var { slot: U::from_u64(6), kind: crate::idioms::Kind::Packed(vec![(0, 8), (8, 24)]) }, crate::idioms::Mode::Both),
+            ],
+            spelling: 0,
+        }));
+        v.push(crate::util::unhex("6040600060003760005160005500"));
+        v.retain(|c| {
+            let x = crate::ref_evm::explore(c, false, &crate::ref_evm::Limits::default());
+            !x.loops && !x.capped
+        });
+        v
+    })
+}
+
+/// Every configuration whose five limits are each 1, 7, the default or usize::MAX, in both error modes.
+fn config_grid() -> &'static Vec<(&'static str, sle::vm::Config)> {
+    static G: OnceLock<Vec<(&'static str, sle::vm::Config)>> = OnceLock::new();
+    G.get_or_init(build_config_grid)
+}
+
+fn build_config_grid() -> Vec<(&'static str, sle::vm::Config)> {
+    let d = sle::vm::Config::default();
+    let vals = |default: usize| [1usize, 7, default, usize::MAX];
+    let mut out = Vec::new();
+    for gas in vals(d.gas_limit) {
+        for it in vals(d.maximum_iterations_per_opcode) {
+            for forks in vals(d.maximum_forks_per_fork_target) {
+                for size in vals(d.value_size_limit) {
+                    for mem in vals(d.single_memory_operation_size_limit) {
+                        for permissive in [false, true] {
+                            out.push((
+                                &*Box::leak(
+                                    format!("gas={gas} iterations={it} forks={forks} value_size={size} memory_bytes={mem} permissive={permissive}").into_boxed_str(),
+                                ),
+                                sle::vm::Config::default()
+                                    .with_gas_limit(gas)
+                                    .with_max_iterations_per_opcode(it)
+                                    .with_max_forks_per_fork_target(forks)
+                                    .with_value_size_limit(size)
+                                    .with_memory_max_bytes(mem)
+                                    .with_permissive_errors(permissive),
+                            ));
+                        }
+                    }
+                }
+            }
+        }
+    }
+    out
 }
 
 fn small_corpus() -> &'static Vec<corpus::Contract> {
@@ -248,6 +313,9 @@ fn plan(tier: Tier) -> Vec<Chunk> {
             v.push(Chunk::Corpus(ci, from, to));
             from = to;
         }
+    }
+    for i in 0..grid_programs().len() {
+        v.push(Chunk::ConfigGrid(i));
     }
     let mutated = if tier.thorough() { small_corpus().len() } else { 1 };
     for (ci, c) in small_corpus().iter().enumerate().take(mutated) {
@@ -406,6 +474,9 @@ impl Check for C01 {
                 }
                 let _ = template_name(t);
             }
+            Chunk::ConfigGrid(i) => {
+                run(ctx, "config_grid", &grid_programs()[i], config_grid());
+            }
             Chunk::Corpus(ci, from, to) => {
                 let c = &small_corpus()[ci];
                 for cut in from..to {
@@ -437,7 +508,7 @@ impl Check for C01 {
              28 multi-operand opcodes (<= 3 non-zero operands above arity 4) x 3 consumer tails; {} pipeline templates (mask/shift/ \
              divide/multiply packing, mapping offset, array index, hashed memory, exp/sar/signextend/byte, return/log/revert) x B x B \
              with |B| = {}; every prefix of the {} smallest shipped contracts and every single-byte substitution (12 replacement bytes incl. STOP, JUMPDEST, \
-             JUMP, JUMPI, PUSH1, PUSH32, SHL, SHR, SHA3, SLOAD, SSTORE, SELFDESTRUCT) at every offset of the smallest one (thorough: of all of them). Each input goes through analyze() and through the \
+             JUMP, JUMPI, PUSH1, PUSH32, SHL, SHR, SHA3, SLOAD, SSTORE, SELFDESTRUCT) at every offset of the smallest one (thorough: of all of them); up to 19 loop-free programs (the templates with benign constants, a fork chain, a two-variable idiom program, a copy / load / store) under EVERY configuration whose five limits are each 1, 7, the default or usize::MAX, in both error modes (2 048 configurations). Each input goes through analyze() and through the \
              staged API (results must agree) under a panic guard; aborts and hangs are attributed by the process supervisor. \
              non-trivial = (input, configuration) that got past execution into the type checker; distinct by content",
             if tier.thorough() { " and 3 (length 3: default configuration)" } else { "" },
